@@ -432,7 +432,7 @@ def run_order(unit):
                 bad = [(o, [k for k in st if st[k] != res[0][0].get(k)][:4]) for st, exc, o in res if st != res[0][0] or exc != res[0][1]]
                 return bool(bad), {'entries': entries, 'orders whose final state differs from the first order': bad[:3]}
             k = 0
-            for pr in core.explore(lambda: read_with(modn, clsn, entries, True), max_paths=200):
+            for pr in core.explore(lambda: read_with(modn, clsn, entries, True), max_paths=5000):
                 log.path(pr)
                 k += 1
                 if pr.error is not None:
